@@ -473,6 +473,6 @@ def classify(case):
 
 
 SUBCHECKS = [
-    Subcheck("fixed", fixed_cases, check_fixed, classify, quick=2500, thorough=100000, journal=True, shards=8),
-    Subcheck("nperbin", nper_cases, check_nper, classify, quick=1500, thorough=60000, journal=True),
+    Subcheck("fixed", fixed_cases, check_fixed, classify, quick=7500, thorough=100000, journal=True, shards=8),
+    Subcheck("nperbin", nper_cases, check_nper, classify, quick=4500, thorough=60000, journal=True),
 ]
